@@ -623,3 +623,33 @@ Proof.
     + assert (X : hvF H c F rep t1 = hvF H c F rep t2) by (apply L; reflexivity). rewrite X. apply OptProofsBase.pystr_eqb_refl.
     + destruct (existsb is_err (e :: es)); discriminate.
 Qed.
+
+(* the verdict of the diff engine does not depend on the pairing (cutoffs, pass budget, cache) *)
+Corollary pairing_independence :
+  forall (H : pystr -> pystr),
+  (forall s, sepfree (H s)) -> (forall s t, H s = H t -> s = t) -> (forall s, lower (H s) = H s) ->
+  forall udiff udiff' c F rep pairs pairs' t1 t2,
+  shared F = true -> thr_num c <= thr_den c -> lift_guard c F rep t1 t2 = true ->
+  (fst (run_diff_ioF H udiff c F rep pairs t1 t2) = [] <-> fst (run_diff_ioF H udiff' c F rep pairs' t1 t2) = []).
+Proof.
+  intros H Ht Hi Hl udiff udiff' c F rep pairs pairs' t1 t2 HF Hthr G.
+  rewrite <- (hash_iff_diff H Ht Hi Hl udiff c F rep pairs t1 t2 HF Hthr G).
+  apply (hash_iff_diff H Ht Hi Hl udiff' c F rep pairs' t1 t2 HF Hthr G).
+Qed.
+
+(* on the observable DeepHash(v, **F)[v] with its own fresh `hashes` table (b06's memo-threading
+   model): no two ==-equal but different atoms inside ONE value *)
+From DD Require Import Hash.HashProofsMemo.
+Corollary deephash_iff_diff :
+  forall (H : pystr -> pystr),
+  (forall s, sepfree (H s)) -> (forall s t, H s = H t -> s = t) -> (forall s, lower (H s) = H s) ->
+  forall udiff c F rep pairs t1 t2,
+  shared F = true -> thr_num c <= thr_den c -> lift_guard c F rep t1 t2 = true ->
+  wf t1 = true -> wf t2 = true -> alias_free t1 = true -> alias_free t2 = true ->
+  (deephash H (hoptsF F (DiffModel.ignore_private c) rep) t1 = deephash H (hoptsF F (DiffModel.ignore_private c) rep) t2 <->
+   fst (run_diff_ioF H udiff c F rep pairs t1 t2) = []).
+Proof.
+  intros H Ht Hi Hl udiff c F rep pairs t1 t2 HF Hthr G W1 W2 A1 A2.
+  rewrite !deephash_pure by (auto; reflexivity).
+  apply (hash_iff_diff H Ht Hi Hl udiff c F rep pairs t1 t2 HF Hthr G).
+Qed.
